@@ -140,3 +140,34 @@ func HarnessC15Names() {
 		}
 	}
 }
+
+// HarnessC15Race: two imports that together close a cycle (a -> b and b -> a; also a -> b racing with a duplicate
+// a -> b) are registered by two logical threads under EVERY interleaving of their lock operations: at most one edge
+// of the cycle is accepted, the other call reports a circular import, the stored graph stays acyclic and an edge is
+// never stored twice.
+func HarnessC15Race() {
+	ctx := zzNewCtx()
+	second := [][2]string{{"b", "a"}, {"a", "b"}}[verifrt.Choice("second", 2)]
+	var e1, e2 error
+	verifrt.Interleave(
+		func() { e1 = ctx.AddDependency("a", "b") },
+		func() { e2 = ctx.AddDependency(second[0], second[1]) },
+	)
+	ab, ba := 0, 0
+	for _, d := range ctx.DepGraph["a"] {
+		if d == "b" {
+			ab++
+		}
+	}
+	for _, d := range ctx.DepGraph["b"] {
+		if d == "a" {
+			ba++
+		}
+	}
+	if second[0] == "b" {
+		verifrt.Assert(!(ab > 0 && ba > 0), "both edges of a two-module import cycle were accepted by racing AddDependency calls")
+		verifrt.Assert((e1 == nil) != (e2 == nil), "of two racing imports that close a cycle exactly one must be refused")
+	} else {
+		verifrt.Assert(ab == 1 && e1 == nil && e2 == nil, "a duplicate import registered concurrently is refused or stored twice")
+	}
+}
